@@ -82,6 +82,9 @@ type TB struct {
 	fresh map[string]int
 	groundByRoot map[string][]*Term
 	selMemo map[[2]int]*Term
+	// cover (satisfiability) queries: the definitional axioms of array copies are left out, the copies
+	// become unconstrained arrays - a weakening, so unsat still proves vacuity and sat is decided quickly
+	dropCaAxioms bool
 }
 
 type ufDecl struct {
@@ -865,8 +868,10 @@ func (tb *TB) Script(asserts []*Term, wantModel bool, logic string) string {
 		sb.WriteString(d)
 	}
 	sb.WriteString(body.String())
-	for _, a := range caAxioms {
-		sb.WriteString(a)
+	if !tb.dropCaAxioms {
+		for _, a := range caAxioms {
+			sb.WriteString(a)
+		}
 	}
 	sb.WriteString("(check-sat)\n")
 	if wantModel {
